@@ -38,6 +38,12 @@ func c15Strings(rng *rand.Rand, n int, exh int) []string {
 	for _, s := range []string{"/dash", "/dash?x=1", "/a/b/c", "/a//b", "/a/./b/../c/", "/", "dash", "../x", "?q", "#h", "/x y", "/é"} {
 		add(s)
 	}
+	// absolute URLs on the site's OWN host (what a front end passes as window.location.href) with hostile paths
+	for _, o := range []string{"http://site.test", "https://site.test", "HTTP://SITE.TEST", "//site.test", "http://site.test:80"} {
+		for _, p := range []string{"", "/", "/dash", "//evil.test/x", "/\\evil.test/x", "/\\/evil.test", "/%2f%2fevil.test", "//evil.test", "/\t/evil.test", "@evil.test/x", ".evil.test/x"} {
+			add(o + p)
+		}
+	}
 	for _, p := range pre {
 		for _, h := range host {
 			add(p + h)
